@@ -1,6 +1,7 @@
 import FordModel.Proto
 import FordModel.Access
 import FordModel.AccessSpec
+import FordModel.AccessNames
 namespace Ford
 open Proto Access
 
@@ -53,6 +54,29 @@ def stmtOf (s : Str) : Option Stmt :=
   | [['O']] => some .other
   | _ => none
 
+def hexVal (c : Char) : Option Nat :=
+  if '0' ≤ c ∧ c ≤ '9' then some (c.toNat - '0'.toNat)
+  else if 'a' ≤ c ∧ c ≤ 'f' then some (c.toNat - 'a'.toNat + 10)
+  else none
+
+/-- a text sent as two hex digits per character (it may contain every separator of the protocol) -/
+def unhex : Str → Option Str
+  | [] => some []
+  | a :: b :: r =>
+    match hexVal a, hexVal b, unhex r with
+    | some x, some y, some t => some (Char.ofNat (16 * x + y) :: t)
+    | _, _, _ => none
+  | _ => none
+
+/-- a statement with its name lists as written: `Q:<attr>:<hex name list>`, `W:<hex entity list>:<attrs>`,
+    `J:<hex generic-spec>:<procs>:<refs>`; everything else is an abstract statement -/
+def rstmtOf (s : Str) : Option RStmt :=
+  match splitOn ':' s with
+  | [['Q'], [a], raw] => (unhex raw).map (.accessR (attrOf a))
+  | [['W'], raw, as] => (unhex raw).map (fun t => .varR t (as.map attrOf))
+  | [['J'], raw, ps, rs] => (unhex raw).map (fun t => .genericR t (names ps) (names rs))
+  | _ => (stmtOf s).map .plain
+
 def colon (xs : List Str) : Str := joinSep ':' xs
 
 def showEnt (e : Ent) : List Str :=
@@ -81,11 +105,11 @@ open C04D in
 def dispatchC04 : List Str → Option (List Str)
   | cmd :: args =>
     if cmd == "c04.run".toList then
-      -- c04.run <variant> <m|s> stmt*
+      -- c04.run <variant> <m|s> stmt*      (variant letter `g`: generic-spec keys lose their blanks)
       match args with
       | v :: scope :: stmts =>
-        match stmts.mapM stmtOf with
-        | some ss => some ("ok".toList :: showOut (runUnit (variantOf v) (scope == ['s']) ss))
+        match stmts.mapM rstmtOf with
+        | some rs => some ("ok".toList :: showOut (runRaw (variantOf v) (v.contains 'g') (scope == ['s']) rs))
         | none => some ["bad-request".toList]
       | _ => some ["bad-request".toList]
     else if cmd == "c04.spec".toList then
